@@ -199,6 +199,7 @@ struct CaseResult {
     multi: bool,
     sample: Option<Value>,
     probes: BTreeMap<&'static str, u64>,
+    digest: String,
 }
 
 fn run_behaviour(go: compiler::go::goast::File, seed: u64) -> (String, String, usize) {
@@ -214,7 +215,7 @@ fn run_behaviour(go: compiler::go::goast::File, seed: u64) -> (String, String, u
 }
 
 pub fn check_case(sb: &Sandbox, seed: u64, idx: usize, case: &Case, nsched: usize, replay_sched: Option<u64>) -> CaseResult {
-    let mut r = CaseResult { violations: Vec::new(), procs: 0, fingerprints: Vec::new(), multi: false, sample: None, probes: BTreeMap::new() };
+    let mut r = CaseResult { violations: Vec::new(), procs: 0, fingerprints: Vec::new(), multi: false, sample: None, probes: BTreeMap::new(), digest: String::new() };
     let layout = Layout::scan(&case.files);
     r.multi = layout.pkgs.len() >= 2;
     sb.materialise(&case.files);
@@ -251,6 +252,7 @@ pub fn check_case(sb: &Sandbox, seed: u64, idx: usize, case: &Case, nsched: usiz
             break;
         };
         r.procs += sep.procs;
+        r.digest = sha(format!("{}{}{:?}", r.digest, serde_json::to_string(&sep.steps).unwrap(), sep.main_go.as_ref().map(|b| sha(b))).as_bytes());
         r.fingerprints.push(format!("{}:{}", &pd[..12], sha(format!("{:?}", sep.steps.iter().map(|s| (&s.op, &s.pkg, &s.dir)).collect::<Vec<_>>()).as_bytes())[..12].to_string()));
         if sep.steps.iter().any(|s| s.op == "check") {
             *r.probes.entry("schedules_with_interleaved_check").or_insert(0) += 1;
@@ -389,6 +391,7 @@ pub fn run(opts: &Opts) -> i32 {
         |w| Sandbox::new(&format!("c14w{w}")).expect("sandbox"),
         |sb, i| check_case(sb, opts.seed, i, &all[i], nsched, None),
     );
+    harness::print_run_digest(&results.iter().map(|r| format!("{}{}", r.digest, r.violations.len())).collect::<Vec<_>>());
     let mut violations = Vec::new();
     let mut multi = 0u64;
     for r in results {
